@@ -198,6 +198,8 @@ def run_scenario(scn):
     res['steps'] = loop.steps
     res['vtime'] = round(CLOCK.now - EPOCH, 6)
     res['counters'] = loop.counters
+    if loop.counters.get('stalls'):
+      res['faults']['process_stall'] = loop.counters['stalls']
     res['tail'] = list(loop.tail)
     res['step_limit'] = getattr(loop, 'step_limit_hit', False)
   try:
